@@ -87,14 +87,14 @@ fn kind(f: &Fault) -> String {
     format!("{f:?}").split('(').next().unwrap_or("").to_string()
 }
 
-fn run_g<B: BaseF, H: HF<B>>(shape: &Arc<Shape>, cfg: &Cfg, only: Option<&Fault>) -> Out {
+fn run_g<B: BaseF, H: HF<B>>(shape: &Arc<Shape>, cfg: &Cfg, only: Option<&Fault>, claims_only: bool) -> Out {
     let mut o = Out { evals: 0, kept: 0, skipped_satisfying: 0, prover_failed: 0, rejected: 0, reject_kinds: Default::default(), viol: vec![] };
     let h = honest::<B>(shape);
     let own = AcceptableOptions::OptionSet(vec![cfg.options()]);
     let all = faults(shape);
     let fs: Vec<&Fault> = match only {
         Some(f) => vec![f],
-        None => all.iter().collect(),
+        None => all.iter().filter(|f| !claims_only || matches!(f, Fault::Claim(..))).collect(),
     };
     // the honest proof, for the public-input faults
     let mut honest_bytes: Option<Vec<u8>> = None;
@@ -155,25 +155,41 @@ fn run_g<B: BaseF, H: HF<B>>(shape: &Arc<Shape>, cfg: &Cfg, only: Option<&Fault>
                 },
             }
         };
-        let proof = match decode(&bytes) {
-            Ok(p) => p,
-            Err(_) => {
-                o.prover_failed += 1;
-                continue;
-            },
-        };
-        match verify_proof::<B, H>(proof, &claimed, &own) {
-            Err(Fail::Err(e)) => {
-                o.rejected += 1;
-                *o.reject_kinds.entry(e.split(|c: char| c == ':' || c == ';').next().unwrap_or("").chars().take(60).collect()).or_default() += 1;
-            },
-            Err(Fail::Panic(p)) => o.viol.push(Violation { class: format!("verify_panic:{}", p.location), key, detail: format!("verifier panicked at {} ({}) on the proof of a faulted trace ({f:?}) of {}", p.location, p.message, shape.name), replay }),
-            Ok(()) => o.viol.push(Violation {
-                class: format!("accepted_false_statement:{}", kind(f)),
-                key,
-                detail: format!("shape {} under {}: fault {f:?} makes the statement false (R9), the release prover produced a proof and the verifier ACCEPTED it", shape.name, cfg.short()),
-                replay,
-            }),
+        // a claimed-value fault is played twice: the honest proof checked against the false claim (above),
+        // and a prover that makes the false claim itself about the honest trace (the transcript is then
+        // consistent with the claim, so only the boundary constraints can reject)
+        let mut all_bytes = vec![bytes];
+        if let Fault::Claim(..) = f {
+            o.evals += 1;
+            o.kept += 1;
+            match prove_trace::<B, H>(shape, h.main.clone(), &claimed, cfg, None) {
+                Ok(p) => all_bytes.push(p.to_bytes()),
+                Err(_) => o.prover_failed += 1,
+            }
+        }
+        for (variant, bytes) in all_bytes.into_iter().enumerate() {
+            let key = if variant == 1 { format!("{key}/prover-claims-it") } else { key.clone() };
+            let replay = replay.clone();
+            let proof = match decode(&bytes) {
+                Ok(p) => p,
+                Err(_) => {
+                    o.prover_failed += 1;
+                    continue;
+                },
+            };
+            match verify_proof::<B, H>(proof, &claimed, &own) {
+                Err(Fail::Err(e)) => {
+                    o.rejected += 1;
+                    *o.reject_kinds.entry(e.split(|c: char| c == ':' || c == ';').next().unwrap_or("").chars().take(60).collect()).or_default() += 1;
+                },
+                Err(Fail::Panic(p)) => o.viol.push(Violation { class: format!("verify_panic:{}", p.location), key, detail: format!("verifier panicked at {} ({}) on the proof of a faulted trace ({f:?}) of {}", p.location, p.message, shape.name), replay }),
+                Ok(()) => o.viol.push(Violation {
+                    class: format!("accepted_false_statement:{}", kind(f)),
+                    key,
+                    detail: format!("shape {} under {}: fault {f:?} makes the statement false (R9), the release prover produced a proof and the verifier ACCEPTED it{}", shape.name, cfg.short(), if variant == 1 { " (the prover made the false claim itself)" } else { "" }),
+                    replay,
+                }),
+            }
         }
     }
     o
@@ -243,26 +259,36 @@ pub fn run(args: &Args) {
         let shape = shape_by_name(v["shape"].as_str().unwrap_or(""));
         let cfg = Cfg::from_json(&v["cfg"]);
         let f = parse_fault(v["fault"].as_str().unwrap_or(""));
-        let o = dispatch!(cfg, run_g, &shape, &cfg, Some(&f));
+        let o = dispatch!(cfg, run_g, &shape, &cfg, Some(&f), false);
         report.part("replay", o.evals, o.kept, json!({}));
         report.violations(o.viol);
         report.finish(args)
     }
     let max_n = if thorough { 32 } else { 16 };
     let cat: Vec<Arc<Shape>> = catalogue(1).into_iter().filter(|s| s.n <= max_n && s.width() <= 9).collect();
-    let mut jobs: Vec<(Arc<Shape>, Cfg)> = vec![];
+    let mut jobs: Vec<(Arc<Shape>, Cfg, bool)> = vec![];
     for s in &cat {
         for c in configs(thorough) {
             let mut c = c.clone();
             c.blowup = c.blowup.max(s.min_blowup());
             if c.valid_for(s).is_ok() {
-                jobs.push((s.clone(), c));
+                jobs.push((s.clone(), c, false));
             }
         }
     }
+    // every pair of a single and a sequence assertion (all strides, first steps and steps): each claimed
+    // value +1 - a false statement about one asserted cell only, whatever groups the two assertions form
+    let pairs = crate::cfg::group_pair_shapes();
+    for s in &pairs {
+        let mut c = configs(false)[0].clone();
+        c.blowup = c.blowup.max(s.min_blowup());
+        if c.valid_for(s).is_ok() {
+            jobs.push((s.clone(), c, true));
+        }
+    }
     let outs = mck::par_map(jobs.len(), |i| {
-        let (s, c) = &jobs[i];
-        dispatch!(c, run_g, s, c, None)
+        let (s, c, claims_only) = &jobs[i];
+        dispatch!(c, run_g, s, c, None, *claims_only)
     });
     let (mut evals, mut kept, mut sat, mut pf, mut rej) = (0, 0, 0, 0, 0);
     let mut kinds: std::collections::BTreeMap<String, u64> = Default::default();
@@ -281,7 +307,7 @@ pub fn run(args: &Args) {
         "every cell +1 / =0, every row zeroed, every column +1 / zeroed / from another start, other seed, every aux cell +1, every aux column from another start, every claimed value +1",
         evals,
         kept,
-        json!({"instances": jobs.len(), "shapes": cat.len(), "faults_classified_unsatisfying_and_kept": kept, "faults_still_satisfying_and_skipped": sat,
+        json!({"instances": jobs.len(), "shapes": cat.len(), "assertion_group_pair_shapes_(claimed_value_faults_only)": pairs.len(), "faults_classified_unsatisfying_and_kept": kept, "faults_still_satisfying_and_skipped": sat,
                "prover_refused": pf, "verifier_rejected": rej, "rejections_by_error": kinds}),
     );
     report.sample(json!({"shape": "reset/n8/s4/z3/d1", "cfg": "1 query, blowup 2", "fault": "Inc(1, 3)", "oracle": "R9: unsatisfying; release prover yields a proof; verify must return Err (out-of-domain check)"}));
